@@ -15,6 +15,7 @@ import (
 	"path/filepath"
 	"reflect"
 	"regexp"
+	"runtime"
 	"runtime/debug"
 	"strconv"
 	"strings"
@@ -167,10 +168,11 @@ type rawServer struct {
 	scripts  map[string]script
 	defaults map[string]script
 	hits     map[string]int
-	lastSig  string // Signature-Input header of the last /authz request
+	lastSig  string        // Signature-Input header of the last /authz request
+	holdCh   chan struct{} // closed when connections kept open by scripts of mode "hold" are to be closed
 }
 
-var pathTarget = map[string]string{"/jwks": "jwks", "/introspect": "introspect", "/identity": "identity", "/authz": "authz", "/ctx": "ctx", "/md": "metadata"}
+var pathTarget = map[string]string{"/jwks": "jwks", "/introspect": "introspect", "/identity": "identity", "/authz": "authz", "/ctx": "ctx", "/md": "metadata", "/ruleset": "ruleset"}
 
 func newRawServer() (*rawServer, error) {
 	for i := 0; i < 50; i++ {
@@ -183,7 +185,8 @@ func newRawServer() (*rawServer, error) {
 			_ = ln.Close() // keep scripted Content-Length values exact: the placeholder has the length of a 5 digit port
 			continue
 		}
-		s := &rawServer{ln: ln, URL: url, scripts: map[string]script{}, defaults: map[string]script{}, hits: map[string]int{}}
+		s := &rawServer{ln: ln, URL: url, scripts: map[string]script{}, defaults: map[string]script{}, hits: map[string]int{}, holdCh: make(chan struct{})}
+		s.defaults["ruleset"] = script{raw: httpResp(200, "application/yaml", remoteRuleSet("/he/init")), mode: "fin"}
 		for _, t := range remoteTargets(url) {
 			s.defaults[t.name] = script{raw: httpResp(200, "application/json", mustJSON(t.valid), "X-Authz: yes"), mode: "fin"}
 		}
@@ -221,9 +224,17 @@ func (s *rawServer) handle(c net.Conn) {
 	if target == "authz" {
 		s.lastSig = req.Header.Get("Signature-Input")
 	}
+	hold := s.holdCh
 	s.mu.Unlock()
 	if len(sc.raw) > 0 {
 		_, _ = c.Write(sc.raw)
+	}
+	if sc.mode == "hold" {
+		// the response stays unfinished and the connection open until the harness says otherwise
+		select {
+		case <-hold:
+		case <-time.After(2 * time.Minute):
+		}
 	}
 	if sc.mode == "rst" {
 		if tc, ok := c.(*net.TCPConn); ok {
@@ -238,6 +249,14 @@ func (s *rawServer) hitCount(target string) int {
 	s.mu.Lock()
 	defer s.mu.Unlock()
 	return s.hits[target]
+}
+
+// release closes the connections that scripts of mode "hold" keep open.
+func (s *rawServer) release() {
+	s.mu.Lock()
+	close(s.holdCh)
+	s.holdCh = make(chan struct{})
+	s.mu.Unlock()
 }
 func (s *rawServer) sigInput() string { s.mu.Lock(); defer s.mu.Unlock(); return s.lastSig }
 func (s *rawServer) clearSig()        { s.mu.Lock(); s.lastSig = ""; s.mu.Unlock() }
@@ -282,7 +301,8 @@ type env struct {
 	restoreN               int
 
 	goodToken string
-	abandon   bool // a request is still being worked on (no answer within the harness' patience): leave without a graceful stop
+	bursted   map[string]bool // rules that have been the target of a burst in this process
+	abandon   bool            // a request is still being worked on (no answer within the harness' patience): leave without a graceful stop
 	journal   *os.File
 	results   *os.File
 }
@@ -309,6 +329,12 @@ rules:
 - id: static:intro
   match: {routes: [{path: "/intro/:x"}]}
   execute: [{authenticator: intro}, {finalizer: noop}]
+- id: static:jwtmdt
+  match: {routes: [{path: "/jwtmdt/:x"}]}
+  execute: [{authenticator: jwt_md_t}, {finalizer: noop}]
+- id: static:intromd
+  match: {routes: [{path: "/intromd/:x"}]}
+  execute: [{authenticator: intro_md}, {finalizer: noop}]
 - id: static:gen
   match: {routes: [{path: "/gen/:x"}]}
   execute: [{authenticator: gen}, {finalizer: noop}]
@@ -321,7 +347,7 @@ func barrierDoc(gen int) []byte {
 	return []byte(fmt.Sprintf("version: \"1alpha4\"\nname: sentinel\nrules:\n- id: sentinel\n  match: {routes: [{path: \"/sent/g%08d\"}]}\n  execute: [{authenticator: anon}, {finalizer: noop}]\n", gen))
 }
 
-func newEnv(dir string, corpus map[string][]byte, envVars bool) (_ *env, err error) {
+func newEnv(dir string, corpus map[string][]byte, envVars, httpProvider bool) (_ *env, err error) {
 	e := &env{dir: dir, corpus: corpus, tap: newLogTap(), ks: map[string]*ksState{}, rulesKind: kRules, held: map[string][]string{}, heldKnown: map[string]bool{}}
 	if envVars {
 		e.rulesKind = kRulesEnv
@@ -381,7 +407,11 @@ func newEnv(dir string, corpus map[string][]byte, envVars bool) (_ *env, err err
 	e.a, err = app.New(app.Options{Service: app.SvcDecision, Logger: &logger, Fx: []fx.Option{fx.Populate(&e.secretW)}, Mutate: func(c *config.Configuration) {
 		c.SecretsReloadEnabled = true
 		c.Providers.FileSystem = map[string]any{"src": e.rulesDir, "watch": true, "env_vars_enabled": envVars}
-		c.Serve.Management.TLS = &config.TLS{KeyStore: config.KeyStore{Path: e.ks[kTLS].path}}
+		if httpProvider {
+			c.Providers.HTTPEndpoint = map[string]any{"watch_interval": remoteRulesInterval.String(),
+				"endpoints": []any{map[string]any{"url": e.srv.URL + "/ruleset", "http_cache": map[string]any{"enabled": false}}}}
+		}
+		c.Serve.Management.TLS = &config.TLS{KeyStore: config.KeyStore{Path: e.ks[kTLS].path, Password: ksPassword}}
 		tp := []string{"127.0.0.1/32"}
 		c.Serve.Decision.TrustedProxies = &tp
 		p := c.Prototypes
@@ -393,6 +423,15 @@ func newEnv(dir string, corpus map[string][]byte, envVars bool) (_ *env, err err
 			mech("jwt_md", "jwt", map[string]any{
 				"metadata_endpoint": map[string]any{"url": S + "/md", "disable_issuer_identifier_verification": true, "http_cache": map[string]any{"enabled": false}},
 				"trust_store":       e.trustP, "cache_ttl": "0s"}),
+			// the metadata document is looked up with a templated url and a few headers (fixed and templated)
+			mech("jwt_md_t", "jwt", map[string]any{
+				"metadata_endpoint": map[string]any{"url": S + "/md?issuer={{ .TokenIssuer }}", "disable_issuer_identifier_verification": true, "http_cache": map[string]any{"enabled": false},
+					"headers": map[string]any{"X-Issuer": "{{ .TokenIssuer }}", "X-Tenant": "verif", "Accept-Language": "en"}},
+				"trust_store": e.trustP, "cache_ttl": "0s"}),
+			mech("intro_md", "oauth2_introspection", map[string]any{
+				"metadata_endpoint": map[string]any{"url": S + "/md", "disable_issuer_identifier_verification": true, "http_cache": map[string]any{"enabled": false},
+					"headers": map[string]any{"X-Tenant": "verif"}},
+				"subject": map[string]any{"id": "sub"}, "cache_ttl": "0s"}),
 			mech("intro", "oauth2_introspection", map[string]any{
 				"introspection_endpoint": map[string]any{"url": S + "/introspect"},
 				"assertions":             map[string]any{"issuers": []string{harnessIssuer}},
@@ -405,7 +444,7 @@ func newEnv(dir string, corpus map[string][]byte, envVars bool) (_ *env, err err
 		p.Authorizers = append(p.Authorizers,
 			mech("rauthz", "remote", map[string]any{
 				"endpoint": map[string]any{"url": S + "/authz", "auth": map[string]any{"type": "http_message_signatures", "config": map[string]any{
-					"signer": map[string]any{"key_store": map[string]any{"path": e.ks[kHTTPSig].path}}, "components": []string{"@method", "@path"}}}},
+					"signer": map[string]any{"key_store": map[string]any{"path": e.ks[kHTTPSig].path, "password": ksPassword}}, "components": []string{"@method", "@path"}}}},
 				"payload":                              `{"sub": {{ quote .Subject.ID }} }`,
 				"expressions":                          []any{map[string]any{"expression": "Payload.ok == true"}},
 				"forward_response_headers_to_upstream": []string{"X-Authz"},
@@ -415,7 +454,7 @@ func newEnv(dir string, corpus map[string][]byte, envVars bool) (_ *env, err err
 		p.Contextualizers = append(p.Contextualizers, mech("gctx", "generic", map[string]any{
 			"endpoint": map[string]any{"url": S + "/ctx"}, "payload": `{"sub": {{ quote .Subject.ID }} }`, "cache_ttl": "0s"}))
 		p.Finalizers = append(p.Finalizers, mech("jwtfin", "jwt", map[string]any{
-			"signer": map[string]any{"key_store": map[string]any{"path": e.ks[kSigner].path}}, "ttl": "4s"}))
+			"signer": map[string]any{"key_store": map[string]any{"path": e.ks[kSigner].path, "password": ksPassword}}, "ttl": "4s"}))
 		p.ErrorHandlers = append(p.ErrorHandlers, mech("defeh", "default", nil), mech("wwwa", "www_authenticate", map[string]any{"realm": "verif"}), mech("redir", "redirect", map[string]any{"to": "http://login.local/x"}))
 	}})
 	if err != nil {
@@ -655,12 +694,64 @@ func (e *env) waitReload(st *ksState, n0 int, res *inResult) string {
 		if attempt == len(waits)-1 {
 			break
 		}
+		if reloadInProgress().frame != "" {
+			continue // the notification has been delivered and is being worked on: no fresh event is needed
+		}
 		res.Nudges++
 		for _, s := range planSteps(st.cur, st.cur) {
 			_ = s.do(st.path)
 		}
 	}
+	if reloadInProgress().frame != "" {
+		return "blocked"
+	}
 	return "none"
+}
+
+// inProgress describes the goroutine of the secrets watcher that is inside a listener's OnChanged right now.
+type inProgress struct {
+	frame   string // innermost heimdall function on that goroutine ("" = no notification is being worked on)
+	callee  string // what that function called
+	top     string // where the goroutine is
+	waiting int    // notification goroutines waiting for their turn (notifications are delivered one at a time)
+	stack   string
+}
+
+var fnLineRe = regexp.MustCompile(`^([^\s(][^\s]*?)\([^()]*\)$`)
+
+// reloadInProgress reads the stacks of all goroutines of the process (heimdall and the harness share it).
+func reloadInProgress() (p inProgress) {
+	buf := make([]byte, 4<<20)
+	buf = buf[:runtime.Stack(buf, true)]
+	for _, g := range strings.Split(string(buf), "\n\n") {
+		if !strings.Contains(g, "internal/watcher.(*watcher).fireOnChange.func1") {
+			continue
+		}
+		if !strings.Contains(g, ".OnChanged(") {
+			if strings.Contains(g, "sync.(*Mutex).Lock") {
+				p.waiting++
+			}
+			continue
+		}
+		var fns []string
+		for _, l := range strings.Split(g, "\n") {
+			if m := fnLineRe.FindStringSubmatch(l); m != nil {
+				fns = append(fns, m[1])
+			}
+		}
+		for i, f := range fns {
+			if strings.HasPrefix(f, "github.com/dadrus/heimdall/internal/") {
+				p.frame = f[strings.LastIndex(f, "/")+1:]
+				if i > 0 {
+					p.callee = fns[i-1][strings.LastIndex(fns[i-1], "/")+1:]
+					p.top = fns[0]
+				}
+				break
+			}
+		}
+		p.stack = trunc(g, 3000)
+	}
+	return p
 }
 
 // writeKS brings a key store file to data step by step and checks after every step what heimdall says
@@ -685,6 +776,36 @@ func (e *env) writeKS(st *ksState, in *inputSpec, idx int, data []byte, stepName
 		}
 		st.cur = s.after
 		out := e.waitReload(st, n0, res)
+		if out == "blocked" {
+			// Not "no reload attempt": the attempt was started and does not end. Does it keep the other watched files waiting?
+			p := reloadInProgress()
+			var other *ksState
+			for _, k := range []string{kSigner, kTLS, kHTTPSig} {
+				if k != st.kind {
+					other = e.ks[k]
+					break
+				}
+			}
+			m0 := e.tap.count(other.path)
+			for _, os := range planSteps(other.cur, other.cur) {
+				_ = os.do(other.path)
+			}
+			time.Sleep(2 * time.Second)
+			q := reloadInProgress()
+			total := 0
+			for _, w := range waits {
+				total += int(w / time.Second)
+			}
+			res.Reloads++
+			res.Observed = true
+			res.Problems = append(res.Problems, problem{Sig: "reload-blocked:" + st.kind + ":" + p.frame,
+				What: fmt.Sprintf("the reload of the %s key store started by this content is still running %d s later (in %s, called by %s): neither 'reloaded' nor 'reload failed' was logged; change notifications for a file are delivered one at a time, so later changes of this file wait behind it", st.kind, total, p.callee, p.frame),
+				Detail: map[string]any{"step": j.Step, "content": witness(s.after), "goroutine": p.stack, "goroutine_is_in": q.top,
+					"then_written": filepath.Base(other.path) + " (same valid content again)", "reload_attempt_logged_for_it_within_2s": e.tap.count(other.path) > m0,
+					"notifications_waiting_for_their_turn": q.waiting}})
+			e.abandon = true
+			return "blocked", false
+		}
 		if out == "none" {
 			res.Problems = append(res.Problems, problem{Sig: "watcher-stopped:" + st.kind, What: "the process is alive but four successive writes to " + filepath.Base(st.path) + " produced no reload attempt (no 'reloaded' / 'reload failed' statement)",
 				Detail: map[string]any{"step": j.Step, "content": witness(s.after)}})
@@ -1303,6 +1424,9 @@ func sendRawWait(addr string, useTLS bool, data []byte, full bool, wait time.Dur
 }
 
 func (e *env) applyRequest(in *inputSpec, idx int, res *inResult) bool {
+	if in.meta("mode") == "burst" {
+		return e.applyBurst(in, idx, res)
+	}
 	port, expect := in.meta("port"), in.meta("expect")
 	note := ""
 	if in.meta("deep") != "" {
@@ -1443,7 +1567,8 @@ func c19Child() {
 			_ = os.Setenv(k, v)
 		}
 	}
-	e, err := newEnv(dir, corpus, envLane)
+	httpLane := start < len(batch) && batch[start].Kind == kRemoteRules
+	e, err := newEnv(dir, corpus, envLane, httpLane)
 	if err != nil {
 		fail(err.Error())
 	}
@@ -1457,6 +1582,11 @@ func c19Child() {
 			break
 		}
 		in := &batch[i]
+		if in.meta("fresh") == "1" && i > start {
+			// this input wants a process that has not handled anything yet
+			next, reason = i, "restart"
+			break
+		}
 		res := inResult{Seq: in.Seq, Index: i, Kind: in.Kind, Class: in.Class, Name: in.Name}
 		goOn := true
 		if skip[in.Kind+"/"+in.Class] || skip[in.Kind+"/"+in.Class+"/"+in.group()] {
@@ -1473,6 +1603,8 @@ func c19Child() {
 				goOn = e.applyRemote(in, i, &res)
 			case kRequest:
 				goOn = e.applyRequest(in, i, &res)
+			case kRemoteRules:
+				goOn = e.applyRemoteRules(in, i, &res)
 			}
 		}
 		if n, msg := e.tap.recoveredPanics(); n > recovered0 {
